@@ -110,39 +110,70 @@ for _locus, _form, _sp in POOL:
     CLASS_OF.setdefault(_form, len(CLASS_OF) + 1)
 FRESH0 = 1000        # classes of facets that duplicate nothing
 
-# TRCL translations used by the tie stream; (5 0 0) and (0 4 0) move one pool
-# surface onto another one, (0 0 0) makes a copy equal to its original
-SHIFTS = ['0 0 0', '5 0 0', '0 4 0', '1 2 3']
+# TRCL transformations used by the tie stream: translations ((5 0 0) and
+# (0 4 0) move one pool surface onto another one, (0 0 0) makes a copy equal
+# to its original) and two rotations by a quarter turn given as direction
+# cosines (exact in binary64); the first one maps px 0 onto py 3
+SHIFTS = ['0 0 0', '5 0 0', '0 4 0', '1 2 3',
+          '0 3 0 0 1 0 -1 0 0 0 0 1', '0 0 0 1 0 0 0 0 1 0 -1 0']
+AXES = {(1.0, 0.0, 0.0): 0, (0.0, 1.0, 0.0): 1, (0.0, 0.0, 1.0): 2}
 
 
-def moved_form(form, shift):
-    '''Canonical TRIPOLI-4 form of a pool surface translated by `shift`
-    (written from the geometry, not from the code).'''
+def tr_spec(text):
+    '''(O, M): origin and the matrix whose columns are the auxiliary axes in
+    main coordinates (MCNP manual: B_ij = cosine between main axis x_i and
+    auxiliary axis x'_j; the card lists B by rows of the AUXILIARY axes
+    x', y', z' expressed in the main frame).'''
+    v = [float(x) for x in text.split()]
+    o = np.array(v[:3])
+    m = np.eye(3) if len(v) == 3 else np.array(v[3:12]).reshape(3, 3).T
+    return o, m
+
+
+def moved_form(form, tr):
+    '''Canonical TRIPOLI-4 form of a pool surface moved by the rigid motion
+    `tr` = (O, M), main = O + M aux (written from the geometry, not from the
+    code; M is a signed permutation matrix here so everything is exact).'''
     typ, prm = form
-    dx, dy, dz = shift
-    if typ == 'PLANEX':
-        return (typ, (prm[0] + dx,))
-    if typ == 'PLANEY':
-        return (typ, (prm[0] + dy,))
-    if typ == 'PLANEZ':
-        return (typ, (prm[0] + dz,))
-    if typ == 'PLANE':          # a x + b y + c z + d = 0
-        a, b, c, d = prm
-        return (typ, (a, b, c, d - (a * dx + b * dy + c * dz)))
-    if typ in ('SPHERE', 'CONEZ'):
-        return (typ, (prm[0] + dx, prm[1] + dy, prm[2] + dz, prm[3]))
-    if typ == 'CYLZ':
-        return (typ, (prm[0] + dx, prm[1] + dy, prm[2]))
-    if typ == 'CYLX':
-        return (typ, (prm[0] + dy, prm[1] + dz, prm[2]))
-    raise ValueError(typ)
+    o, m = tr
+    if typ in ('PLANEX', 'PLANEY', 'PLANEZ', 'PLANE'):
+        if typ == 'PLANE':
+            n, dist = np.array(prm[:3]), -prm[3]    # a x + b y + c z + d = 0
+        else:
+            n = np.eye(3)['XYZ'.index(typ[-1])]
+            dist = prm[0]
+        big_n = m @ n
+        dist = dist + float(big_n @ o)
+        axis = AXES.get(tuple(float(x) + 0.0 for x in big_n))
+        if axis is not None:
+            return ('PLANE' + 'XYZ'[axis], (dist,))
+        return ('PLANE', (*(float(x) + 0.0 for x in big_n), -dist + 0.0))
+    if typ == 'SPHERE':
+        c = o + m @ np.array(prm[:3])
+        return (typ, (*(float(x) + 0.0 for x in c), prm[3]))
+    k = 'XYZ'.index(typ[-1])                        # CYLk / CONEk
+    others = [i for i in range(3) if i != k]
+    if typ.startswith('CYL'):
+        p = np.zeros(3)
+        p[others[0]], p[others[1]] = prm[0], prm[1]
+        rest = (prm[2],)
+    else:
+        p = np.array(prm[:3])
+        rest = (prm[3],)
+    axis = m @ np.eye(3)[k]
+    j = AXES[tuple(abs(float(x)) for x in axis)]
+    q = o + m @ p
+    if typ.startswith('CYL'):
+        oj = [i for i in range(3) if i != j]
+        return ('CYL' + 'XYZ'[j], (float(q[oj[0]]) + 0.0,
+                                   float(q[oj[1]]) + 0.0, *rest))
+    return ('CONE' + 'XYZ'[j], (*(float(x) + 0.0 for x in q), *rest))
 
 
 for _locus, _form, _sp in list(POOL):
     for _sh in SHIFTS:
-        CLASS_OF.setdefault(
-            moved_form(_form, tuple(float(x) for x in _sh.split())),
-            len(CLASS_OF) + 1)
+        CLASS_OF.setdefault(moved_form(_form, tr_spec(_sh)),
+                            len(CLASS_OF) + 1)
 assert len(CLASS_OF) < FRESH0
 FORM_OF_CLASS = {v: k for k, v in CLASS_OF.items()}
 
@@ -153,7 +184,7 @@ def moved_cls(cls, trcl):
     form = FORM_OF_CLASS.get(cls)
     if form is None:
         return 0
-    return CLASS_OF[moved_form(form, tuple(float(x) for x in trcl.split()))]
+    return CLASS_OF[moved_form(form, tr_spec(trcl))]
 
 # cards with several sub-surfaces: spelling, MCNP parts, first class, aux
 # classes (fresh unless they are a pool form)
@@ -377,8 +408,10 @@ def sample_points(rng, n=48, half=10.0):
 
 def mcnp_value(deck, s, p, shift=None):
     mn, prm = card_semantics(s['text'])
-    if shift is not None:     # the surface as moved by a cell's TRCL
-        p = tuple(np.asarray(p, float) - np.array(shift, float))
+    if shift is not None:     # the surface as moved by a cell's TRCL / FILL
+        tr = {'O': list(shift[:3]),
+              'B': list(shift[3:12]) if len(shift) > 3 else None}
+        p = tuple(mcnpref.to_aux(tr, p))
     if s.get('tr'):
         vec = deck['trs'][s['tr']]
         p = tuple(np.asarray(p, float) - np.array(vec, float))
@@ -963,8 +996,8 @@ def run(res, tier, seed, proofs_ok):
                 'flagged surfaces (smaller and larger numbers, same or other '
                 'spelling, flagged or not), optional macrobody / one-sheet '
                 'cone, 1-4 cells that are intersections, 35 % of the decks with '
-                'TRCL translations (4 shifts, two of them moving a pool '
-                'surface onto another one, one the identity) on about half of '
+                'TRCL transformations (4 translations, two of them moving a pool '
+                'surface onto another one, one the identity, and 2 quarter-turn rotations) on about half of '
                 'their cells incl. the importance-0 cell, with and without '
                 '--skip-deduplication and --skip-boundary-conditions; '
                 'malformed stream: flagged macrobody, flags **,*+,..., '
